@@ -12,7 +12,12 @@ FAMILY = ["C01", "C02", "C03", "C04", "C06", "C07", "C08", "C17"]
 # of the formula the configuration is expected to refute (a documented finding
 # of the design, reproduced on the code by a recorded scenario)
 MODEL_CFG = {
-    "C01": {"quick": [("MC_q_single.cfg", "ok")], "thorough": [("MC_single.cfg", "ok")]},
+    # C01 also: the end of life of a log (Sunset.tla): nothing is committed after the final tree head is
+    # recorded; "final tree head = served checkpoint" is refuted (observation O-1 of DESIGN.md 9.7)
+    "C01": {"quick": [("MC_q_single.cfg", "ok"), ("MC_sunset.cfg", "ok", "Sunset.tla"),
+                      ("MC_sunset_pub.cfg", "FinalIsPublished", "Sunset.tla")],
+            "thorough": [("MC_single.cfg", "ok"), ("MC_sunset.cfg", "ok", "Sunset.tla"),
+                         ("MC_sunset_pub.cfg", "FinalIsPublished", "Sunset.tla")]},
     "C02": {"quick": [("MC_q_single.cfg", "ok")], "thorough": [("MC_single.cfg", "ok")]},
     "C03": {"quick": [("MC_q_single.cfg", "ok")], "thorough": [("MC_single.cfg", "ok")]},
     "C04": {"quick": [("MC_q_single.cfg", "ok")], "thorough": [("MC_single.cfg", "ok")]},
